@@ -35,6 +35,8 @@ def gen_c10(rng, idx, tier, faults):
         # statement about float32; exact rescaling keeps the spectrum away from the absolute cut
         xs["cast"] = "float32"
         xs["scale_pow2"] = rng.choice([-7, -6, -5, -4, 0])
+    if kind == "lattice" and "cast" not in xs and rng.random() < 0.35:
+        xs["cast"] = "int64"  # integer-valued features in the caller's integer dtype
     p = rng.randint(1, 3)
     noise = rng.choice([0.0, 0.0, 1e-3, 0.1, 1.0])
     heap = {
@@ -59,6 +61,10 @@ def gen_c10(rng, idx, tier, faults):
         "regularization_method": method,
         "scoring": rng.choice(SCORINGS),
     }
+    if alpha_type == "absolute" and rng.random() < (0.2 if method == "cutoff" else 0.05):
+        # grid values that are bit-identical to singular values of a fold / of the full data
+        # (a grid built from np.linalg.svd of the data): there `s > alpha` is exactly False
+        params["alphas_from_sv"] = [[rng.choice(["fold1", "fold2", "full"]), rng.random()] for _ in range(rng.randint(1, 3))]
     if rng.random() < 0.15:
         params["alphas_form"] = rng.choice(["ndarray", "ndarray_readonly", "tuple"])  # default: list
     if params["scoring"] is not None and rng.random() < 0.15:
@@ -125,6 +131,8 @@ def gen_c10(rng, idx, tier, faults):
             cenv["interrupt"] = {"exc": rng.choice(["KeyboardInterrupt", "MemoryError"]), "at": rng.randint(1, 120)}
             ops.append({"op": "FIT", "obj": f"e{li}", "env": cenv})
         ops.append({"op": "FIT", "obj": f"e{li}", "env": env})
+        if rng.random() < 0.3:
+            ops[-1]["then_set_alphas"] = True  # re-parameterise after the fit and read the fitted attributes again
     if rng.random() < 0.25:
         # the caller reuses its X / y buffers: new values in the same array objects, then a
         # refit of the same estimator (judged against the reference on the new values)
@@ -164,6 +172,50 @@ class RidgeWorld:
     def violate(self, clause, detail, **facts):
         facts.setdefault("cls", "Ridge2FoldCV")
         self.violations.append({"clause": clause, "cls": "Ridge2FoldCV", "detail": detail, "facts": facts})
+
+    def alphas_from_sv(self, params, X):
+        """Replace some grid values by singular values of the folds / the full data, taken
+        with the same LAPACK call on the same array the estimator will see."""
+        from sklearn.model_selection import KFold
+
+        p = dict(params)
+        picks = p.pop("alphas_from_sv")
+        cv = p.get("cv")
+        n = X.shape[0]
+        folds = None
+        try:
+            if cv is None:
+                if not p.get("shuffle", True) or isinstance(p.get("random_state"), int):
+                    folds = next(KFold(2, shuffle=p.get("shuffle", True), random_state=p.get("random_state") if p.get("shuffle", True) else None).split(X))
+            elif cv["type"] == "int":
+                folds = next(KFold(int(cv["n_splits"])).split(X))
+            elif cv["type"] == "kfold":
+                if not cv["shuffle"] or isinstance(cv.get("random_state"), int):
+                    folds = next(KFold(cv["n_splits"], shuffle=cv["shuffle"], random_state=cv.get("random_state")).split(X))
+            else:
+                folds = (np.array(cv["pairs"][0][0], dtype=int), np.array(cv["pairs"][0][1], dtype=int))
+        except Exception:  # noqa: BLE001
+            folds = None
+        Xf = X if X.dtype == np.float64 else None
+        alphas = list(p["alphas"])
+        if Xf is None:
+            return p
+        for which, frac in picks:
+            try:
+                if which == "full":
+                    sv = np.linalg.svd(Xf, full_matrices=False)[1]  # the same call the estimator makes
+                elif folds is None:
+                    continue
+                else:
+                    sv = np.linalg.svd(Xf[folds[0] if which == "fold1" else folds[1]], full_matrices=False)[1]
+                sv = sv[sv > 0]
+                if sv.size:
+                    alphas[int(frac * len(alphas)) % len(alphas)] = float(sv[int(frac * 7919) % sv.size])
+                    self.count("alpha_taken_from_singular_values")
+            except Exception:  # noqa: BLE001
+                pass
+        p["alphas"] = alphas
+        return p
 
     def make_cv(self, cv, n):
         from sklearn.model_selection import KFold
@@ -224,6 +276,8 @@ class RidgeWorld:
             for op in tr["ops"]:
                 self.events += 1
                 if op["op"] == "NEW":
+                    if op["params"].get("alphas_from_sv"):
+                        op = dict(op, params=self.alphas_from_sv(op["params"], X))
                     self.cur = op
                     news[op["obj"]] = op
                 elif op["op"] == "MUTATE":
@@ -386,8 +440,27 @@ class RidgeWorld:
             self.violate("cv_values_shape", f"{cvv.shape} vs {ref['cv'].shape} | {desc}")
             return
         amb = np.zeros(len(alphas), dtype=bool)
+        exact = np.zeros(len(alphas), dtype=bool)
+        if p["regularization_method"] == "cutoff" and X.dtype == np.float64 and p["alpha_type"] == "absolute":
+            # a grid value bit-identical to a singular value: `s > alpha` is exactly False, no
+            # rounding decision - provided LAPACK returns the same bits for every memory layout
+            mats = (X64[f1], X64[f2], X64)
+            svs_uv = [np.linalg.svd(M, full_matrices=False)[1] for M in mats]  # the estimator's own call
+            robust = all(
+                np.array_equal(sv, np.linalg.svd(np.ascontiguousarray(M), full_matrices=False)[1])
+                and np.array_equal(sv, np.linalg.svd(np.asfortranarray(M), full_matrices=False)[1])
+                for sv, M in zip(svs_uv, mats)
+            )
+            for i, a in enumerate(ref["scaled"]):
+                hits = [sv[np.abs(sv - a) <= 1e-9 * max(float(sv.max()), 1e-300)] for sv in svs_uv]
+                near = np.concatenate(hits) if hits else np.zeros(0)
+                if robust and near.size and np.all(near == a):
+                    exact[i] = True
         if p["regularization_method"] == "cutoff":
             for i, a in enumerate(ref["scaled"]):
+                if exact[i]:
+                    self.stats["probes"]["cutoff_alpha_exactly_at_a_singular_value_judged"] += 1
+                    continue
                 for s in svs:
                     if np.any((s > rt) & (np.abs(s - a) <= max(1e-9, 100 * epsX if epsX != EPS else 0.0) * smax)):
                         amb[i] = True
@@ -435,7 +508,7 @@ class RidgeWorld:
             self.count("alpha_checked")
         # ---- final coefficients for the alpha the implementation chose
         i0 = idxs[0]
-        if p["regularization_method"] == "cutoff" and any(
+        if p["regularization_method"] == "cutoff" and not all(exact[i] for i in idxs) and any(
             np.any((svs[2] > rt) & (np.abs(svs[2] - ref["scaled"][i]) <= max(1e-9, 100 * epsX if epsX != EPS else 0.0) * smax)) for i in idxs
         ):
             self.count("skip_coef_alpha_at_singular_value")
@@ -474,6 +547,36 @@ class RidgeWorld:
                 self.violate("predict_wrong", f"predict(X) is not X @ coef_.T | {desc}")
         except Exception as e:  # noqa: BLE001
             self.violate("predict_raises", f"{type(e).__name__}: {e} | {desc}")
+        if op.get("then_set_alphas"):
+            # the caller re-parameterises the fitted estimator (another grid) without fitting
+            # again: what the fit reported (cv_values_, alpha_, best_score_, coef_) describes
+            # the fit that was made and must not move
+            hi = 0.9 if p["alpha_type"] == "relative" else 1e300
+            alt = [min(hi, float(a) * 0.5 + 1e-3) for a in alphas] + [min(hi, 0.7)]
+            orig_alphas = est.alphas
+            try:
+                est.set_params(alphas=np.array(alt))
+                now = (np.asarray(est.cv_values_, dtype=float), float(est.alpha_), float(est.best_score_), np.asarray(est.coef_, dtype=float))
+                same = (
+                    now[0].shape == cvv.shape and np.array_equal(now[0], cvv, equal_nan=True)
+                    and now[1] == alpha_ and (now[2] == best or (np.isnan(now[2]) and np.isnan(best)))
+                    and now[3].shape == coef.shape and np.array_equal(now[3], coef, equal_nan=True)
+                )
+                if not same:
+                    self.violate(
+                        "fitted_result_moved_by_set_params",
+                        f"after set_params(alphas=<another grid>) without a new fit the estimator reports alpha_={now[1]!r} "
+                        f"(was {alpha_!r}), best_score_={now[2]!r} (was {best!r}) | {desc}",
+                    )
+                else:
+                    self.count("fitted_result_stable_under_set_params")
+            except Exception as e:  # noqa: BLE001
+                self.count("set_params_after_fit_raised:" + type(e).__name__)
+            finally:
+                try:
+                    est.set_params(alphas=orig_alphas)
+                except Exception:  # noqa: BLE001
+                    pass
 
     def lanes(self):
         """The same configuration under different task schedules must give the same
